@@ -67,6 +67,9 @@ META = {
 CID_A, CID_B = "CLI", "SRV"
 TIME = "20230101-10:00:00.000"
 FUEL = 80               # settle: max deliveries per drain (model and implementation alike)
+# the class of the former finding D13 (repaired by the D12 fix of _process_resend): a resend reply is in flight at a
+# break.  Still computed per schedule (input distribution: how often the situation is exercised); a failure inside it is
+# suppressed only if known_findings.jsonl lists the class, which it no longer does.
 KF_CLASS = "C07-break-loses-resend-reply"
 
 WORDS = {"sA": [0, 0], "sB": [0, 1], "fA": [1, 0], "fB": [1, 1], "dA": [2, 0], "dB": [2, 1], "BRK": [3], "REC": [4]}
@@ -581,7 +584,7 @@ def check(ctx, acts, impl, model_res, kind):
         ctx.count("oracle-fail" + ("-in-class" if cls else ""))
         ctx.fail({"schedule": text}, impl["oracle"], cls)
     elif impl["in_class"]:
-        ctx.count("in-class-but-holds")
+        ctx.count("reply-lost-at-a-break-and-recovered")
     if model_res is None:
         return
     mprojs, _, msettled = model_res
@@ -631,8 +634,8 @@ def brief(p):
 
 WITNESSES = [
     # the theorems' witnesses, always run first (also the corpus of this property)
-    "REC dB dA sA BRK REC dB dA dA BRK",          # C07_double_break_refuted (D13)
-    "REC BRK REC dB dA dA sA BRK",                # C07_silent_loss_refuted
+    "REC dB dA sA BRK REC dB dA dA BRK",          # C07_double_break_recovers (D13 before the D12 repair)
+    "REC BRK REC dB dA dA sA BRK",                # C07_gap_fill_lost_recovers (the former silent loss)
     "REC dB dA sA sA sA dB BRK REC",              # single-break family n=3 k=2 (C07_single_break)
     "REC dB dA sB sB sB dA BRK REC",              # mirror family n=3 k=2 (C07_single_break_B_to_A)
     "REC dB dA sA sB BRK REC",                    # both directions in flight
